@@ -248,6 +248,9 @@ impl Property for Prop {
                 let n = 200 + rng.below(if cx.quick() { 800 } else { 2800 });
                 let mut recent: Vec<String> = Vec::new();
                 for step in 0..n {
+                    if step % 16 == 0 && crate::expired() {
+                        return;
+                    }
                     rep.eval();
                     let (what, sig, moved) = match rng.below(10) {
                         0 | 1 | 2 => {
@@ -422,6 +425,9 @@ impl Property for Prop {
                     return;
                 }
                 for i in 0..m {
+                    if crate::expired() {
+                        return;
+                    }
                     for f in [Fault::Underflow, Fault::Overflow, Fault::TooSmall, Fault::UndefinedId, Fault::Corrupted] {
                         let (mut w, mut open, mut r) = build(rep);
                         let (p2, _) = targeted(&mut r, &fr, slots, &mut open);
